@@ -6,6 +6,51 @@ from replay.common import load, done  # noqa: E402
 from replay import tls_bank, server_bank  # noqa: E402
 
 p = load()
+
+
+def listener_settings():
+    """the standard-library listener keeps asyncio's own TLS shutdown behaviour: a shortened ssl_shutdown_timeout makes asyncio drop
+    response bytes still queued for a slow reader (the body would arrive truncated on that back end only)"""
+    import asyncio
+    import contextlib
+    import io
+    import tempfile
+    from nauyaca.server import server as srv
+    from nauyaca.server.config import ServerConfig
+
+    class Stop(Exception):
+        pass
+    seen = {}
+
+    async def go():
+        loop = asyncio.get_running_loop()
+
+        async def create_server(factory, host=None, port=None, ssl=None, **kw):
+            seen.update(kw=kw, ssl=ssl)
+            raise Stop()
+        loop.create_server = create_server
+        try:
+            with contextlib.redirect_stdout(io.StringIO()):
+                await srv.start_server(ServerConfig(host="localhost", port=1965, document_root=tempfile.mkdtemp()), enable_rate_limiting=False)
+        except Stop:
+            pass
+    asyncio.run(go())
+    kw = seen.get("kw", {})
+    t = kw.get("ssl_shutdown_timeout")
+    if t is not None and t < 30:
+        return dict(confirmed=True, input=dict(listener="standard-library TLS", create_server_kwargs={k: repr(v) for k, v in kw.items()}),
+                    observed=dict(ssl_shutdown_timeout=t, meaning=f"asyncio discards response bytes still queued {t} s after the server closes: a large body read slowly arrives truncated"),
+                    clause="the client receives the header followed by exactly the body bytes on both back ends, for fast, slow and bursty readers")
+    return None
+
+
+if p.get("obligation") == "__bounded__":
+    try:
+        r0 = listener_settings()
+    except Exception:  # noqa: BLE001
+        r0 = None
+    if r0:
+        done(**r0)
 r = tls_bank.bank("C06")
 if not r.get("confirmed"):
     r2 = server_bank.bank("C06")
